@@ -10,7 +10,7 @@ package util
 // ones; batches are atomic) and then re-run.
 // The persistent store is the in-memory grocksdb stand-in of /verif/stubs (atomic batches assumed).
 // property: C05
-// scope: two key families ({0a01,0a02,0b01,0b02}: every branch below an extension; {1111,2222,3133,3244}: leaves directly under the root branch); round 1 = fixed content; round 2 = every sequence of <= 3 merged child transactions, each one operation (set one of 4 keys to one of 2 values, or delete it); round 3 = fixed transactions that re-create content deleted earlier; prune versions 1..4 with a crash at every write of the prune for sequences of <= 2 (quick) / <= 3 (thorough) transactions
+// scope: three key families ({0a01,0a02,0b01,0b02}: every branch below an extension; {1111,2222,3133,3244}: leaves directly under the root branch; {12,1234,1256,34}: a value on a branch); round 1 = fixed content; round 2 = every sequence of <= 3 merged child transactions, each one operation (set one of 4 keys to one of 2 values, or delete it); round 3 = fixed transactions that re-create content deleted earlier; prune versions 1..4 with a crash at every write of the prune for sequences of <= 2 (quick) / <= 3 (thorough) transactions
 
 import (
 	"context"
@@ -168,7 +168,8 @@ func (e *c05env) reach(i int) (map[string]bool, error) {
 func TestGocvBoundedC05(t *testing.T) {
 	// two key families: all keys under one shared first nibble (every branch sits below an
 	// extension), and keys spread over the root branch (a lifted leaf stays live under the root)
-	families := [][]string{{"0a01", "0a02", "0b01", "0b02"}, {"1111", "2222", "3133", "3244"}}
+	// and keys where one is a proper prefix of others (a value on a branch, overwritten in place)
+	families := [][]string{{"0a01", "0a02", "0b01", "0b02"}, {"1111", "2222", "3133", "3244"}, {"12", "1234", "1256", "34"}}
 	keys := families[0]
 	vals := []string{"50", "60"}
 	var ops []c05op
@@ -307,10 +308,15 @@ func TestGocvBoundedC05(t *testing.T) {
 			round1 = []c05op{{key: keys[0], val: "10"}, {key: keys[1], val: "20"}, {key: keys[2], val: "30"}, {key: keys[3], val: "40"}}
 		}
 		round3 = []c05op{{key: keys[3], val: "77"}, {key: keys[0]}, {key: keys[1], val: "20"}, {key: keys[0], val: "10"}}
+		if fi == 2 {
+			// restore round 1's values by plain overwrites (no delete in between)
+			round1 = round1[:3]
+			round3 = []c05op{{key: keys[0], val: "10"}, {key: keys[3], val: "77"}}
+		}
 		rec(nil)
 	}
 	sort.Strings(keys)
-	fmt.Printf("GOCV-BOUNDED cases=%d failures=%d scope=\"3 rounds; round 2: all sequences of <= %d merged single-operation child transactions over two key families (the last: %v), values %v; round 3 re-creates deleted content; dead sets vs reachability at every later root; for sequences of <= %d transactions also PruneBelowVersion(1..4) with a cut at every write, re-run, reopen on the store alone\"\n", cases, fails, depth, keys, vals, pruneDepth)
+	fmt.Printf("GOCV-BOUNDED cases=%d failures=%d scope=\"3 rounds; round 2: all sequences of <= %d merged single-operation child transactions over three key families (fixed-length below an extension; leaves under the root branch; the last with a value on a branch: %v), values %v; round 3 re-creates deleted content / restores overwritten values; dead sets vs reachability at every later root; for sequences of <= %d transactions also PruneBelowVersion(1..4) with a cut at every write, re-run, reopen on the store alone\"\n", cases, fails, depth, keys, vals, pruneDepth)
 	if fails > 0 {
 		t.Fail()
 	}
